@@ -11,14 +11,14 @@ from mc.core import Acc, Hang, horizon
 
 ID = "C05"
 RULE = ("E-INPUT: every acyclic instance with n<=3 variables (each ordered pair absent / gap 0 / gap 2 / duplicated, every "
-        "relabelling, desired in {0,1,3}^n, 4 weight x 4 scale vectors) and n=4 (pairs absent/0/2, desired {0,1,3}^4, "
+        "relabelling, desired in {0,1,3}^n, 4 weight x 4 scale vectors; quick: 3 of the 6 relabellings) and n=4 (pairs absent/0/2, desired {0,1,3}^4, "
         "relabellings; thorough: all weight/scale vectors, n=5 over {0,2}^5); every multiset of <=3 (thorough <=4) directed "
-        "edges over 3 (4) variables incl. contradictory cycles; thorough: families up to 60 variables. Real "
+        "edges over 3 (4) variables incl. contradictory cycles; thorough: families up to 60 variables; re-solve path (solve, setDesiredPositions, solve) for every pair of desired vectors at n=3 ({0,1,3}) and n=4 ({0,2}). Real "
         "vpsc.Solver.solve(); feasibility, cost consistency, exact dual certificate; R-QP confirms every rejection with "
         "<=8 constraints and cross-checks every 50th instance. Non-trivial: optimum != desired (a merge was needed).")
-ASSUMPTIONS = ["equality constraints and setStartingPositions are outside the property",
+ASSUMPTIONS = ["equality constraints and setStartingPositions are outside the property; re-solving after setDesiredPositions is driven",
                "tolerances: feasibility 1e-6 relative, optimality 1e-4 absolute + 1e-6 relative (the solver's own convergence threshold)"]
-REQUIRED_COUNTERS = ("acyclic_instances", "cyclic_instances", "cyclic_flagged", "moved_instances")
+REQUIRED_COUNTERS = ("acyclic_instances", "cyclic_instances", "cyclic_flagged", "moved_instances", "resolve_instances")
 
 W_VEC = {
     "unit": lambda n: [1] * n,
@@ -79,6 +79,19 @@ def run_impl(d, w, s, cons, budget=5.0):
     return [v.position() for v in vs], cost, [bool(c.unsatisfiable) for c in cs]
 
 
+def run_resolve(d1, d2, w, s, cons, budget=5.0):
+    """solve(), then setDesiredPositions(d2), then solve() again on the SAME solver."""
+    from labella import vpsc
+    vs = [vpsc.Variable(float(di), float(wi), float(si)) for di, wi, si in zip(d1, w, s)]
+    cs = [vpsc.Constraint(vs[l], vs[r], float(g)) for l, r, g in cons]
+    with horizon(budget):
+        solver = vpsc.Solver(vs, cs)
+        solver.solve()
+        solver.setDesiredPositions([float(v) for v in d2])
+        cost = solver.solve()
+    return [v.position() for v in vs], cost, [bool(c.unsatisfiable) for c in cs]
+
+
 def is_acyclic(n, cons):
     out = {i: set() for i in range(n)}
     indeg = [0] * n
@@ -105,7 +118,10 @@ def judge(inst, acc=None, force_qp=False):
     d, w, s, cons = inst["d"], inst["w"], inst["s"], [tuple(c) for c in inst["cons"]]
     n = len(d)
     try:
-        x, cost, uns = run_impl(d, w, s, cons)
+        if "d_first" in inst:  # re-solve path: the verdict is about the second desired vector
+            x, cost, uns = run_resolve(inst["d_first"], d, w, s, cons)
+        else:
+            x, cost, uns = run_impl(d, w, s, cons)
     except Hang as e:
         return "HANG", "solve() did not return within the horizon"
     except RecursionError:
@@ -197,8 +213,8 @@ def plan(tier, seed):
     shards = []
     nsh = 48
     for r in range(nsh):
-        shards.append({"kind": "acyc", "n": 3, "dups": True, "perms": "all", "D": [0, 1, 3], "wv": "all", "sv": "all",
-                       "mod": nsh, "rem": r})
+        shards.append({"kind": "acyc", "n": 3, "dups": True, "perms": 3 if tier == "quick" else "all", "D": [0, 1, 3],
+                       "wv": "all", "sv": "all", "mod": nsh, "rem": r})
     if tier == "quick":
         for r in range(nsh):
             shards.append({"kind": "acyc", "n": 4, "dups": False, "perms": 3, "D": [0, 1, 3], "wv": ["unit"], "sv": ["unit"],
@@ -220,6 +236,11 @@ def plan(tier, seed):
             shards.append({"kind": "cyc", "n": 4, "maxe": 4, "mod": 96, "rem": r})
         for n in range(1, 61):
             shards.append({"kind": "fam", "n": n})
+    # re-solve path: solve, setDesiredPositions, solve on one solver - every pair of desired vectors
+    for r in range(16):
+        shards.append({"kind": "resolve", "n": 3, "D": [0, 1, 3], "mod": 16, "rem": r})
+    for r in range(32):
+        shards.append({"kind": "resolve", "n": 4, "D": [0, 2], "mod": 32, "rem": r})
     # seeded slice: n=3 with another desired/gap alphabet
     D = [[0, 0.5, 2], [1, 4, 9], [-3, 0, 0.25], [0, 10, 11]][seed % 4]
     shards.append({"kind": "acyc", "n": 3, "dups": False, "perms": "all", "D": D, "wv": "all", "sv": "all",
@@ -256,6 +277,22 @@ def run_shard(shard):
                                 acc.violation(inst, bad[0], bad[1], order=(n, len(cons), ci, pi))
             if ci % 17 == 0:
                 acc.sample(inst)
+    elif shard["kind"] == "resolve":
+        n = shard["n"]
+        for ci, cons in enumerate(acyclic_configs(n, False)):
+            if ci % shard["mod"] != shard["rem"]:
+                continue
+            acc.states += 1
+            for d1 in itertools.product(shard["D"], repeat=n):
+                for d2 in itertools.product(shard["D"], repeat=n):
+                    inst = {"d": list(d2), "d_first": list(d1), "w": [1] * n, "s": [1] * n, "cons": cons}
+                    bad = judge(inst, acc)
+                    acc.evals += 1
+                    acc.trans += 1
+                    acc.counters["resolve_instances"] += 1
+                    if bad:
+                        acc.violation(inst, bad[0], bad[1], order=(20 + n, len(cons), ci))
+        acc.sample(inst)
     elif shard["kind"] == "cyc":
         n = shard["n"]
         letters = [(l, r, g) for l in range(n) for r in range(n) if l != r for g in (0, 1, 2)]
@@ -319,6 +356,9 @@ def replay(case):
 
 
 def snippet(case):
+    if "d_first" in case:
+        return "# solve with desired %r, then setDesiredPositions(%r) and solve again; constraints %r" % (
+            case["d_first"], case["d"], case["cons"])
     return ("from labella import vpsc\nd,w,s,cons=%r,%r,%r,%r\n"
             "vs=[vpsc.Variable(float(a),float(b),float(c)) for a,b,c in zip(d,w,s)]\n"
             "cs=[vpsc.Constraint(vs[l],vs[r],float(g)) for l,r,g in cons]\n"
